@@ -4,8 +4,10 @@ package main
 // registry (only to steer the choice of the next line towards contention, time-outs, cleanup and
 // use after the end); what is checked is the Coq model against the implementation, never this.
 //
-// Time grid: sleeps are multiples of 100 ms, limits and deadlines sit at odd multiples of 50 ms, so
-// every comparison the implementation makes is nominally 50 ms away from its threshold.
+// Time grid: sleeps are multiples of 100 ms, the limits sit at odd multiples of 50 ms and the Begin
+// deadlines at 125/325 ms (the harness waits out a deadline that is about to fire, which shifts the
+// following lines by that much), so every comparison the implementation makes is nominally at least
+// 25 ms away from its threshold.
 
 import (
 	"fmt"
@@ -68,7 +70,11 @@ func (g *g17) header() string {
 		}
 		return 0
 	}
-	return fmt.Sprintf("svc=%d peer=%d wiring=%s idle=%d ttlro=%d ttlrw=%d", b2(g.svc), b2(g.peer), g.wiring, g.idle, g.ttlro, g.ttlrw)
+	h := fmt.Sprintf("svc=%d peer=%d wiring=%s idle=%d ttlro=%d ttlrw=%d", b2(g.svc), b2(g.peer), g.wiring, g.idle, g.ttlro, g.ttlrw)
+	if g.slow {
+		h += " maxscale=1" // the registry's 10 s do not stretch with the axis
+	}
+	return h
 }
 
 func (g *g17) emit(f string, a ...interface{}) { g.lines = append(g.lines, fmt.Sprintf(f, a...)) }
@@ -262,9 +268,9 @@ func (g *g17) lineBegin(c int) {
 	ro := g.r.Intn(100) < 40
 	d := 0
 	if g.wouldWait(ro) {
-		d = []int{150, 150, 350, 350, 350, 0}[g.r.Intn(6)]
+		d = []int{125, 125, 325, 325, 325, 0}[g.r.Intn(6)]
 	} else if g.r.Intn(100) < 30 {
-		d = 350
+		d = 325
 	}
 	m := "rw"
 	if ro {
@@ -459,7 +465,7 @@ func (g *g17) program() {
 			case "pending":
 				if g.r.Intn(100) < 15 {
 					if g.r.Intn(2) == 0 {
-						g.emit("begin %d rw 150", c) // answered busy
+						g.emit("begin %d rw 125", c) // answered busy
 					} else {
 						g.lineOp(c)
 					}
